@@ -221,9 +221,8 @@ RequireMem(n) ==
 ReleaseMem(n) ==
   /\ Live
   /\ LET c == stack[Len(stack)]
-         bad == c.hm > 0 /\ n > c.um
-         c2 == IF c.hm > 0 /\ n <= c.um THEN [c EXCEPT !.um = @ - n] ELSE c
-         k == IF bad THEN "other" ELSE "none"
+         c2 == IF c.hm > 0 THEN [c EXCEPT !.um = IF n <= @ THEN @ - n ELSE 0] ELSE c
+         k == "none"
      IN Step([op |-> "rel", n |-> n], [stack EXCEPT ![Len(stack)] = c2], frames,
              PanAfter(k, frames), NoFail, LastPan("rel", k), {})
 
